@@ -11,7 +11,7 @@ REPO = os.environ.get("VERIF_REPO", "/repo")
 EXCLUDES = ["target", ".git", "fuzz", "python", ".github", "scripts"]
 
 LIB_PRELUDE = "#![cfg_attr(kani, feature(allocator_api, pattern))]\n#![cfg_attr(kani, recursion_limit = \"512\")]\n"
-MOD_GRAFT = "\n#[cfg(kani)]\nmod verif_kani;\n"
+MOD_GRAFT = "\n#[cfg(kani)]\npub(crate) mod verif_kani;\n"
 
 
 class OverlayError(Exception):
@@ -69,6 +69,25 @@ def build(dest):
         body = fh.read()
     with open(librs, "w") as fh:
         fh.write(LIB_PRELUDE + body)
+    # the memo table's type can be swapped for the association-list model (feature verif_modelmap, MEMO-GET units)
+    staters = os.path.join(dest, "src", "state.rs")
+    with open(staters) as fh:
+        st = fh.read()
+    IMPORT = "use std::collections::HashMap;\n"
+    if st.count(IMPORT) != 1 or "HashMap<usize, StackObjectRef>" not in st:
+        raise OverlayError("src/state.rs no longer declares the memo as HashMap<usize, StackObjectRef> with a plain std import: "
+                           "the model-map graft must be re-derived")
+    st = st.replace(IMPORT, '#[cfg(not(feature = "verif_modelmap"))]\nuse std::collections::HashMap;\n'
+                            '#[cfg(feature = "verif_modelmap")]\nuse crate::generator::verif_kani::modelmap::ModelMap as HashMap;\n')
+    with open(staters, "w") as fh:
+        fh.write(st)
+    with open(cargo) as fh:
+        ct = fh.read()
+    if "\n[features]\n" not in ct:
+        raise OverlayError("Cargo.toml has no [features] section to extend")
+    ct = ct.replace("\n[features]\n", "\n[features]\nverif_modelmap = []\n", 1)
+    with open(cargo, "w") as fh:
+        fh.write(ct)
     with open(cargo, "a") as fh:
         fh.write('\n[patch.crates-io]\ncolor-eyre = { path = "%s/shims/color-eyre" }\n' % VERIF)
         fh.write('\n[workspace]\n')
